@@ -113,11 +113,7 @@ func (s *Swarm) Ask(ctx context.Context, resp []byte, dst Addr, data p2p.IOVec) 
 	if p2p.VecSize(data) > MTU {
 		return 0, p2p.ErrMTUExceeded
 	}
-	c, err := s.getConn(ctx, dst)
-	if err != nil {
-		return 0, err
-	}
-	reply, err := c.Send(true, p2p.VecBytes(nil, data))
+	reply, err := s.sendRequest(ctx, dst, p2p.VecBytes(nil, data))
 	if err != nil {
 		return 0, err
 	}
@@ -125,6 +121,32 @@ func (s *Swarm) Ask(ctx context.Context, resp []byte, dst Addr, data p2p.IOVec) 
 		return 0, io.ErrShortBuffer
 	}
 	return copy(resp, reply), nil
+}
+
+// sendRequest connects to dst if necessary, sends payload and waits for the reply.
+// Neither dialing nor ssh's SendRequest observe a context: they run in the background,
+// and sendRequest returns as soon as ctx ends.
+func (s *Swarm) sendRequest(ctx context.Context, dst Addr, payload []byte) ([]byte, error) {
+	type result struct {
+		reply []byte
+		err   error
+	}
+	done := make(chan result, 1)
+	go func() {
+		c, err := s.getConn(ctx, dst)
+		if err != nil {
+			done <- result{err: err}
+			return
+		}
+		reply, err := c.Send(true, payload)
+		done <- result{reply: reply, err: err}
+	}()
+	select {
+	case <-ctx.Done():
+		return nil, ctx.Err()
+	case res := <-done:
+		return res.reply, res.err
+	}
 }
 
 func (s *Swarm) Tell(ctx context.Context, dst Addr, data p2p.IOVec) error {
